@@ -139,7 +139,8 @@ CHECKS = {
         category="proof",
         text="Lean theorems over a model of HeaderValue::new (email-encoding's writer, folding writer and RFC 2047 encoder), the header-name "
              "check and the Headers map: value_wf (for every Rust string: no bare CR/LF, every CRLF followed by SP, only HTAB/printable "
-             "ASCII), name_safe, section_read_back / headers_read_back (an RFC 5322 reader recovers exactly the stored fields in order and "
+             "ASCII; value_wf_every_string and mailbox_header_wf_every_name state it for the UTF-8 octets of every List Char with no hypothesis, "
+             "through Proofs/Utf8Runs.lean), name_safe, section_read_back / headers_read_back (an RFC 5322 reader recovers exactly the stored fields in order and "
              "the body: nothing supplied can add, split, truncate or terminate a field), names_stay_unique, mailbox_header_wf (the same well-formedness "
              "for From / Sender / To / Cc / Bcc / Reply-To under every display name: a model of Mailbox(es)::encode with quoted_string::encode's four "
              "strategies and the repaired write_unbreakable, Model/MailboxEnc.lean, compared octet for octet with the code), content_disposition_wf "
@@ -174,7 +175,10 @@ CHECKS = {
              "with quoted-pairs, encoded-words - is shown by the structured-field reader as exactly the name), mailbox_header_read_back (a "
              "whole mailbox list unfolded), file_name_roundtrip / attachment_and_inline_file_names (every file name below 10^20 octets, "
              "printable or not: the RFC 2231 reader finds exactly the name in the Content-Disposition value; Model/Rfc2231Enc.lean models "
-             "ContentDisposition::with_name and rfc2231::encode and is compared octet for octet with the code, as is Model/MailboxEnc.lean).",
+             "ContentDisposition::with_name and rfc2231::encode and is compared octet for octet with the code, as is Model/MailboxEnc.lean). "
+             "unstructured_roundtrip_every_string / display_name_roundtrip_every_string: the same with no hypothesis at all, for the UTF-8 octets of every "
+             "List Char (Proofs/Utf8Runs.lean proves, over Lean's own UTF-8 encoder, that no string has four continuation octets in a row - the one "
+             "hypothesis the octet-level theorems carry).",
         design_ref="DESIGN.md 5 C12",
         note="Trusted: Lean kernel; axioms propext/Quot.sound/Classical.choice; Spec/Rfc2047Dec.lean as the reading of RFC 2047 / RFC 5322 2.2.3; "
              "the hypothesis that a Rust string has no four UTF-8 continuation octets in a row; model + harness. Structured fields (display "
